@@ -307,6 +307,14 @@ func TestC01Burst(t *testing.T) {
 	rapid.Check(t, func(rt *rapid.T) { burstCase(rt, "C01", col, false) })
 }
 
+// TestC13Burst: overlapping requests leave a state that some serial order of them explains.
+func TestC13Burst(t *testing.T) {
+	col := ev.Get("C13", "burst", burstRule+" (for C13 the clause at stake: every operation sees and leaves a consistent state)")
+	atomic.StoreInt64(&taskctl.VerifPause, int64(50*time.Microsecond))
+	defer atomic.StoreInt64(&taskctl.VerifPause, 0)
+	rapid.Check(t, func(rt *rapid.T) { burstCase(rt, "C13", col, false) })
+}
+
 // TestC07Burst: a burst on a replace pipeline with start delay converges to one job.
 func TestC07Burst(t *testing.T) {
 	col := ev.Get("C07", "burst", burstRule+" (here: always replace with start delay)")
